@@ -60,6 +60,11 @@ pub struct XCase {
     /// any other host: no mode is recorded. Extractors that treat names by host get their hostile names here.
     #[serde(default)]
     pub host: Option<u8>,
+    /// independently built archives: the central directory lists the entries in another order than their local
+    /// headers lie in the file (rotation, reversal) - the seekable extractor goes by the directory, the streaming
+    /// one meets the files in file order and the metadata in directory order
+    #[serde(default)]
+    pub central_order: Option<(u32, bool)>,
 }
 
 pub struct Extract;
@@ -306,7 +311,9 @@ impl Scenario for Extract {
         }
         let mut rh = Rng::derive(s, "host");
         let host = if by_writer { None } else { match rh.below(8) { 0 | 1 => Some(0u8), 2 => Some(rh.pickc(&[10u8, 19, 7, 11, 14, 255])), _ => None } };
-        let case = XCase { entries, by_writer, seekable, policy: gen_policy_short(&mut r), fault, precreate, target_form, prefiles, host };
+        let mut ro = Rng::derive(s, "central-order");
+        let central_order = if !by_writer && entries.len() > 1 && ro.chance(1, 3) { Some((ro.below(entries.len() as u64) as u32, ro.chance(1, 2))) } else { None };
+        let case = XCase { entries, by_writer, seekable, policy: gen_policy_short(&mut r), fault, precreate, target_form, prefiles, host, central_order };
         serde_json::to_value(case).unwrap_or(Value::Null)
     }
 
@@ -390,6 +397,10 @@ impl Scenario for Extract {
                     be.utf8 = !name.is_ascii() || !cname.is_ascii();
                 }
                 l.entries.push(be);
+            }
+            if let Some((rot, rev)) = c.central_order {
+                l.central_rot = rot;
+                l.central_rev = rev;
             }
             build(&l).image
         };
@@ -680,6 +691,9 @@ impl Scenario for Extract {
         }
         if c.host.is_some() {
             out.push(XCase { host: None, ..c.clone() });
+        }
+        if c.central_order.is_some() {
+            out.push(XCase { central_order: None, ..c.clone() });
         }
         for i in 0..c.entries.len() {
             let e = &c.entries[i];
